@@ -210,10 +210,13 @@ func c15GateFor(fact string) string { return "remote." + fact }
 
 func TestC15(t *testing.T) {
 	rec := ev.Get("C15")
-	rec.Rule = "1..3 generated schemas (every type kind, wrappers up to 4 levels, argument/input/directive defaults of every value kind, descriptions, deprecations, directive definitions, interface inheritance, custom root names; labelled class with wrappers deeper than the introspection query) served by a spec-compliant responder behind the real MultiOpQueryer and ParallelRemoteSchemaIntrospector, optionally all at one host under different paths, with answers that take 0.2-3 ms (overlapping), and with one service answering its first 1-2 requests with 503 (then a start-up error is accepted, a schema paired with the wrong url is not); oracle: bidirectional equality of schema facts incl. descriptions, deprecations, defaults, roots; same validation verdict for generated valid and single-edit invalid operations; non-trivial = a schema using >=3 of {arg default, input default, nested wrappers, directive with args, deprecation, interface, union, custom scalar}; distinct by hash(SDLs)"
+	rec.Rule = "1..3 (now and then 9..12) generated schemas (every type kind, wrappers up to 4 levels, argument/input/directive defaults of every value kind, descriptions, deprecations, directive definitions, interface inheritance, custom root names; labelled class with wrappers deeper than the introspection query) served by a spec-compliant responder behind the real MultiOpQueryer and ParallelRemoteSchemaIntrospector, optionally all at one host under different paths, with answers that take 0.2-3 ms (overlapping), and with one service answering its first 1-2 requests with 503 (then a start-up error is accepted, a schema paired with the wrong url is not); oracle: bidirectional equality of schema facts incl. descriptions, deprecations, defaults, roots; same validation verdict for generated valid and single-edit invalid operations; non-trivial = a schema using >=3 of {arg default, input default, nested wrappers, directive with args, deprecation, interface, union, custom scalar}; distinct by hash(SDLs)"
 	defer census.dump("C15")
 	rapid.Check(t, func(t *rapid.T) {
 		n := rapid.SampledFrom([]int{1, 1, 1, 2, 3}).Draw(t, "nschemas")
+		if rapid.IntRange(0, 19).Draw(t, "manyservices") == 0 {
+			n = rapid.IntRange(9, 12).Draw(t, "nmany") // more services than any batch of parallel introspections
+		}
 		c := &IntrospectCase{EmptyErrors: rapid.IntRange(0, 3).Draw(t, "emptyerrors") == 0, FailService: -1}
 		if n > 1 {
 			c.SameHost = rapid.IntRange(0, 2).Draw(t, "samehost") == 0
